@@ -1,5 +1,9 @@
 // Command oracle answers requests for standard algorithms from the Go
-// standard library and x/crypto only; it imports nothing from tink-go.
+// standard library and x/crypto only; it imports nothing from tink-go - with
+// ONE exception, ops_c14mldsa.go ("c14_mldsa_pub": the public key of an ML-DSA
+// seed, for which the standard library has no implementation; used by the
+// C13/C14 models of the ML-DSA private-key parsers only, and listed as trusted
+// in their manifests).
 package main
 
 import (
